@@ -53,7 +53,9 @@ CHECKS = {
         'text': 'Machine-checked, axiom-free proof (Properties/C20.v): for every multiset of samples (ties included) and '
                 'every bulk probability a/b, whenever both rank-based limits exist they are sample values enclosing at '
                 'least that fraction of the samples; bands are nested for increasing probabilities; the polygon has one '
-                'upper and one lower vertex per time point; there is exactly one marker trace per individual holding '
+                'upper and one lower vertex per time point and its y-vertices are exactly the limits of each unique time '
+                '(each time of the table once, its samples exactly the values of its rows); the band of a time is '
+                'independent of the row order of the samples table (Permutation); there is exactly one marker trace per individual holding '
                 'exactly its (time, value) pairs of the chosen observable, and dose traces hold exactly its dose rows. '
                 'Tied to /repo on every run: plotly traces of the four real plot classes on generated frames / sample '
                 'sets are compared exactly (vm_compute) with the model; frames must be unchanged.',
